@@ -81,7 +81,7 @@ def zb(i: int) -> str:
 
 
 def unzb(a):
-    return int(a[1:], 2)
+    return a if isinstance(a, int) else int(a[1:], 2)
 
 
 def big_parts(s: str):
